@@ -24,6 +24,7 @@ Import ListNotations.
 Open Scope Z_scope.
 
 Definition cid := nat.                       (* a list, dict or set, by identity *)
+Bind Scope nat_scope with cid.
 Definition M32 : Z := 4294967296.
 
 Record coll := mkColl { frozen : bool; itercount : Z; content : list Z }.
